@@ -104,7 +104,7 @@ class C06(Prop):
         for i in range(ctx.pick(2, 12) + len(directed)):
             h = directed[i] if i < len(directed) else commit_history(rng, rng.randint(12, 30) if i % 2 else 60, heavy_delete=(i % 3 == 0))
             for be in ("sqlite", "peewee"):
-                hh = h if be == "sqlite" else {"lazy": True, "ops": [o for o in h["ops"] if o[1] != "read"]}
+                hh = h if be == "sqlite" else {"lazy": True, "ops": [o for o in h["ops"] if o[1] not in ("read", "read1")]}
                 # number of statements is found by a dry run inside gen (cheap: one child)
                 total = self._count_statements(be, hh)
                 for k in range(1, total + 1):
